@@ -208,6 +208,15 @@ func c02LaneReader(t *testing.T, r *sim.Run) {
 	ref := &refParser{}
 	nfiles := 1 + T.Intn(5, "nfiles")
 	opts := genTextOpts{}
+	// systematic sweep (thorough tier): "sweep:<err|cut|none>:<offset>" forces one fault position on a one-file history
+	sweepKind, sweepOff := "", 0
+	if strings.HasPrefix(r.Param, "sweep:") {
+		f := strings.Split(r.Param, ":")
+		sweepKind = f[1]
+		fmt.Sscan(f[2], &sweepOff)
+		nfiles = 1
+		r.Lane = "reader-sweep"
+	}
 	switch T.Intn(8, "mode") {
 	case 0:
 		opts.stress = true
@@ -237,7 +246,21 @@ func c02LaneReader(t *testing.T, r *sim.Run) {
 		src.MaxChunk = []int{0, 1, 2, 5, 64, 4096, 100000}[T.Intn(7, "chunk")]
 		delivered := string(text)
 		wantErr := false
-		switch T.Intn(6, "rfault") {
+		rf := T.Intn(6, "rfault")
+		if sweepKind != "" {
+			rf = 0
+			r.Info["len"] = fmt.Sprint(len(text))
+			if sweepOff > len(text) {
+				sweepOff = len(text)
+			}
+			switch sweepKind {
+			case "err":
+				src.ErrAt, delivered, wantErr = sweepOff, string(text[:sweepOff]), true
+			case "cut":
+				src.CutAt, delivered = sweepOff, string(text[:sweepOff])
+			}
+		}
+		switch rf {
 		case 4:
 			if len(text) > 0 {
 				src.ErrAt = T.Intn(len(text)+1, "errat")
@@ -472,6 +495,10 @@ var c02Engine = &sim.Engine{
 	Stub: []string{"io.Reader source (SimReader)"},
 	Run: func(t *testing.T, r *sim.Run, tier string) {
 		r.OwnMapOrder(true)
+		if r.Param != "" {
+			c02LaneReader(t, r)
+			return
+		}
 		if r.T.Intn(5, "lane") == 4 {
 			r.Lane = "files"
 			c02LaneFiles(t, r)
@@ -480,6 +507,55 @@ var c02Engine = &sim.Engine{
 			c02LaneReader(t, r)
 		}
 	},
+	Extra: c02Sweep,
+}
+
+// c02Sweep (thorough tier): for seeded one-file inputs, a read error and a
+// truncation at EVERY byte offset.
+func c02Sweep(t *testing.T, w *sim.Worker) {
+	defer func() { w.Param = "" }()
+	if w.Job.Tier != "thorough" {
+		return
+	}
+	inputs, positions := 0, 0
+	complete := true
+	for k := 0; ; k++ {
+		if w.TimeUp() {
+			break
+		}
+		sc := uint64(w.Job.Worker) + uint64(k)*uint64(w.Job.NWorkers)
+		seed := sim.Mix(w.Job.Seed, "C02-sweep", sc)
+		w.Param = "sweep:none:0"
+		cr := w.Exec(sim.NewTape(seed), false)
+		if !w.Handle(cr, 1<<40+sc, seed) {
+			return
+		}
+		n := 0
+		fmt.Sscan(cr.Info["len"], &n)
+		if cr.V != nil || n == 0 || n > 20000 {
+			continue
+		}
+		tape := cr.T.Values()
+		inputs++
+		for off := 0; off <= n; off++ {
+			for _, kind := range []string{"err", "cut"} {
+				if w.TimeUp() {
+					complete = false
+					break
+				}
+				w.Param = fmt.Sprintf("sweep:%s:%d", kind, off)
+				r := w.Exec(sim.ReplayTape(tape), false)
+				positions++
+				w.Res.Extra["swept-read-fault-offsets"]++
+				if !w.Handle(r, 1<<41+sc*100000+uint64(2*off), seed) {
+					return
+				}
+			}
+		}
+	}
+	w.Param = ""
+	w.Res.ExtraInfo["cov_offset_sweep"] = map[string]any{"inputs": inputs, "positions": positions, "every_byte_offset_of_each_input": complete,
+		"note": "read error and truncation at every byte offset of seeded one-file inputs; a worker that runs out of time leaves its last input incomplete"}
 }
 
 func TestVerifWorker(t *testing.T) {
